@@ -543,6 +543,26 @@ pub mod debug {
         }
     }
 
+    #[cfg(feature = "verif")]
+    impl DebugStatusRegister {
+        pub fn verif_from_raw(raw: usize) -> Self {
+            Self(raw)
+        }
+        pub fn verif_raw(&self) -> usize {
+            self.0
+        }
+    }
+
+    #[cfg(feature = "verif")]
+    impl DebugControlRegister {
+        pub fn verif_from_raw(raw: usize) -> Self {
+            Self(raw)
+        }
+        pub fn verif_raw(&self) -> usize {
+            self.0
+        }
+    }
+
     #[derive(PartialEq, Debug)]
     pub struct HardwareDebugState {
         /// Four (dr0, dr1, dr2, dr3 for x86_64) address debug registers.
